@@ -422,7 +422,7 @@ fn answer_cli(text: &[u8]) -> String {
         String::from_utf8(o.stdout).map_err(|_| "non-utf8".to_string())
     };
     // sample: every 7th qualifying offset, at most 6
-    let offs: Vec<usize> = (0..text.len()).filter(|o| target(&root, *o).is_some()).step_by(7).take(4).collect();
+    let offs: Vec<usize> = (0..text.len()).filter(|o| target(&root, *o).is_some()).step_by(7).take(3).collect();
     let f = file.to_string_lossy().to_string();
     for off in offs {
         let (want, _) = target(&root, off).unwrap();
@@ -710,7 +710,7 @@ pub fn gen(tier: Tier, r: &mut Rng, emit: &mut dyn FnMut(String)) {
         }
         emit(format!("C28 doc {}", hex_bytes(&d)));
         emit_ev(&d, emit);
-        if i % (if quick { 40 } else { 60 }) == 0 {
+        if i % (if quick { 150 } else { 60 }) == 0 {
             emit(format!("C28 cli {}", hex_bytes(&d)));
         }
     }
